@@ -4,7 +4,7 @@ CONSTANTS
   MaxRows = 2
   MaxRows3 = 2
   SelRows = 3
-  BigN = 0
-  BigM = 0
+  BigN = 6
+  BigM = 3
 INVARIANTS KernelEq Laws Mirror SelLaws Emit
 CHECK_DEADLOCK FALSE
